@@ -470,13 +470,13 @@ theorem allSat (P : Platform) : ∀ f, AllSat P f := by
         cases init with
         | none =>
           rw [evalS]; apply sat_guard; intro _
-          exact sat_mono (Ext.newEnv σ _) (ih.fo c inc b _ repl _)
+          exact sat_mono (Ext.newEnv σ _) (ih.fo _ inc b _ repl _)
         | some i =>
           rw [evalS]; apply sat_guard; intro _
           apply sat_mono (Ext.newEnv σ (some env))
           apply sat_seq (ih.s _ _ repl _)
           intro v σ2 _
-          exact ih.fo c inc b _ repl σ2
+          exact ih.fo _ inc b _ repl σ2
       | breakS line => rw [evalS]; exact sat_guard fun _ => Ext.refl σ
       | continueS line => rw [evalS]; exact sat_guard fun _ => Ext.refl σ
       | returnS line v =>
